@@ -1940,8 +1940,15 @@ func (ls *LState) Status(th *LState) string {
 		status = "dead"
 	} else if ls.G.CurrentThread == th {
 		status = "running"
-	} else if ls.Parent == th {
-		status = "normal"
+	} else {
+		// th is "normal" while it waits for a coroutine it resumed, directly or indirectly:
+		// it is then an ancestor of the running thread
+		for p := ls.G.CurrentThread; p != nil; p = p.Parent {
+			if p.Parent == th {
+				status = "normal"
+				break
+			}
+		}
 	}
 	return status
 }
